@@ -24,6 +24,8 @@ Theorem C20_request_total : forall input p, parse_request input <> Request.Panic
 Proof. exact parse_no_panic. Qed.
 Theorem C20_response_total : forall input, response_parse input <> PPanicCL /\ response_parse input <> PPanicIdx.
 Proof. exact response_parse_no_panic. Qed.
+Theorem C20_range_multipart_total : forall input, rmp_parse input <> PPanicCL /\ rmp_parse input <> PPanicIdx.
+Proof. exact rmp_parse_no_panic. Qed.
 Theorem C20_multipart_total : forall data boundary, multipart_parse data boundary <> MPanicWindows0.
 Proof. exact multipart_no_panic. Qed.
 Theorem C20_range_total : forall L spec, parse_range L spec <> RPanicSub.
